@@ -82,7 +82,8 @@ BASE_POOL = [
     # truth values as numpy hands them out (comparisons of numpy numbers)
     ('npbool', True), ('npbool', False),
 ]
-MODES = ['typed', 'native', 'cells', 'literals', 'calls', 'reassigned']
+MODES = ['typed', 'native', 'cells', 'literals', 'calls', 'reassigned',
+         'keywords']
 
 
 def shards(tier):
@@ -179,6 +180,17 @@ def run(ctx):
             for op, fname in OPS.items():
                 got = monitors.call_outcome(F[fname], x, y)
                 matrix.append((mode, op, i, j, outcome_code(got)))
+                if mode == 'typed' and (i + j) % 3 == 0:
+                    # the operands handed over BY NAME, the right one first
+                    import inspect
+                    try:
+                        pn = list(inspect.signature(F[fname]).parameters)[:2]
+                        kw = {pn[1]: y, pn[0]: x}
+                        gk = monitors.call_outcome(
+                            lambda: F[fname](**kw))
+                    except (TypeError, ValueError, IndexError):
+                        continue
+                    matrix.append(('keywords', op, i, j, outcome_code(gk)))
     # formulas over cells / literals, batched
     CH = 60
     for k in range(0, len(mine), CH):
